@@ -94,6 +94,11 @@ type Monitor interface {
 	Finish(r *Run)
 }
 
+// DirectAware monitors are told about direct keeper calls (ops that are not transactions).
+type DirectAware interface {
+	AfterDirect(r *Run, ctx sdk.Context, op Op)
+}
+
 // BaseMonitor provides no-op defaults.
 type BaseMonitor struct{}
 
@@ -509,6 +514,13 @@ func (r *Run) ExecBlock(bi int, b Block) {
 			r.phase = "DirectCall"
 			f(r, ctx, op)
 			r.Stats.OpOutcomes[op.K+":direct"]++
+			r.curOp = oi
+			r.phase = "AfterDirect"
+			for _, m := range r.Mons {
+				if da, ok := m.(DirectAware); ok && r.Viol == nil {
+					da.AfterDirect(r, n.DeliverCtx(c), op)
+				}
+			}
 			if r.Viol != nil || r.Stats.Aborted != "" {
 				return
 			}
